@@ -203,6 +203,16 @@ fn shapes(quick: bool) -> Vec<Shape> {
     }}}
     let (mb, mc) = if quick { (4, 4) } else { (8, 8) };
     for sec in 3..=msec { for body in 1..=mb { for cap in 1..=mc { for r in radii { v.push(Shape::Capsule { sec, body, cap, r }); } } } }
+    // scale sentinels: counts around 255/256/257 and a dense sphere
+    for sec in [100u32, 255, 256, 257] {
+        v.push(Shape::Sphere { sec, seg: 3, r: 1.0 });
+        v.push(Shape::Cyl { sec, seg: 2, capped: true, r: 1.0 });
+        v.push(Shape::Torus { maj: sec, min: 4, rmaj: 2.0, rmin: 0.5 });
+        v.push(Shape::Capsule { sec, body: 2, cap: 2, r: 0.5 });
+    }
+    v.push(Shape::Sphere { sec: 100, seg: 60, r: 3.0 });
+    v.push(Shape::Torus { maj: 6, min: 257, rmaj: 3.0, rmin: 1.0 });
+    v.push(Shape::Cone { sec: 5, seg: 300, capped: true, rb: 1.0, ra: 0.5 });
     for profile in 0..3 { for sec in 3..=msec.min(12) { for (az0, az1) in [(0, 8), (0, 4), (0, 2), (1, 3), (-2, 5), (0, 7), (3, 6), (4, 8), (5, 13), (-4, -1)] { for capped in [false, true] {
         v.push(Shape::Lathe { profile, sec, az0, az1, capped });
     }}}}
